@@ -11,7 +11,8 @@ class Prop:
     thorough_budget = 900.0
     rule = ("seeded chains of 1-3 element-wise operators (catalogue rows %s) over one generated cold/hot/sync timeline "
             "(0-7 elements incl. falsy values, bursts, completion/error/no terminal) on three clock kinds; each run is compared, "
-            "value and virtual time, with the Python list model. Distinct = distinct (operator chain, observed output, source kind); "
+            "value and virtual time, with the Python list model; 8%% of the runs use a subscriber that hands the next value to the source (a Subject) "
+            "from inside every on_next it receives (re-entrant emission through the operators). Distinct = distinct (operator chain, observed output, source kind); "
             "non-trivial = at least two notifications observed.") % (sorted(models.ELEMENTWISE),)
     assumptions = ["callbacks are total deterministic functions from the harness library",
                    "sources are conforming (at most one terminal); non-conforming sources belong to C01",
@@ -20,7 +21,7 @@ class Prop:
     names = sorted(models.ELEMENTWISE)
 
     def generate(self, rng, tier):
-        return chain.gen(rng, self.names, tier)
+        return chain.gen(rng, self.names, tier, feedback_p=0.08)
 
     def execute(self, sc):
         return chain.execute(sc, models.ELEMENTWISE)
